@@ -220,6 +220,8 @@ template <class C> Verdict check_C13(const Plan& plan, Stats& st) {
         int mk = plan.mgrs[(size_t)plan.ops[i].mgr % plan.mgrs.size()];
         if (out.outs[i].digest == "rejected") st.probe("incomplete_manager_rejected");
         if (plan.ops[i].kind == OP_FREE && plan.ops[i].refree) st.probe("repeated_free");
+        if (plan.ops[i].brk && out.outs[i].digest == "rejected") st.probe("manager_table_broken_in_place_rejected");
+        if (plan.ops[i].kind == OP_A_SELFTEST) st.probe("self_test_inside_history");
         if ((plan.ops[i].kind == OP_ADDBASE || plan.ops[i].kind == OP_REMOVEBASE) && out.outs[i].rc == 0) {
             int a = plan.ops[i].b, b = plan.ops[i].c; (void)a; (void)b;
             st.probe(mk == MK_COMPLETED ? "resolve_on_completed_manager" : mk == MK_SIM ? "resolve_on_sim_manager" : "resolve_on_libc");
@@ -362,6 +364,9 @@ template <class C> Verdict check_C05(const Plan& plan, Stats& st) {
         if (t.find('[') != std::string::npos) st.probe("object_with_ip_literal");
         if (t.find("//") == std::string::npos && t.find("/.//") != std::string::npos) st.probe("object_with_dot_guard");
         if (out.outs[i].aux == 0) st.probe("empty_text_object");
+        if (plan.ops[i].cap == CAP_ALL && (plan.run_seed >> 11) % 8 == 0 && out.outs[i].aux <= 256) st.probe("object_also_written_with_huge_and_very_negative_stated_capacity");
+        if (plan.ops[i].cap == CAP_ALL && ((plan.run_seed >> 19) + (unsigned)i) % 4 == 0) st.probe("length_learned_from_ample_write_measuring_call_last");
+        if (out.outs[i].aux > 1000) st.probe("object_longer_than_1000_characters");
     }
     Violation v;
     if (pick_violation("C05", out.viol, st, &v)) {
